@@ -33,6 +33,10 @@ Qed.
 Lemma pos_sum_ne0 a b : 0 < a -> 0 < b -> a + b <> 0.
 Proof. intros; lra. Qed.
 
+Ltac pos := match goal with
+  | |- 0 < ?a * ?b => first [assumption | apply Rmult_lt_0_compat; pos]
+  | _ => first [assumption | lra] end.
+
 Section Fresnel.
   Variables n1 n2 th : R.
   Hypothesis Hn1 : 0 < n1.
@@ -102,8 +106,8 @@ Section Fresnel.
       replace (2 * (n2 / n1) * c / (n2 / n1 * (n2 / n1) * c + n2 / n1 * ct))
         with (2 * n1 * c / (n2 * c + n1 * ct)) by (field; repeat split; try lra; nra).
       reflexivity.
-    - apply pos_sum_ne0; [repeat apply Rmult_lt_0_compat; lra|apply Rmult_lt_0_compat; lra].
-    - apply pos_sum_ne0; [lra|apply Rmult_lt_0_compat; lra].
+    - apply pos_sum_ne0; pos.
+    - apply pos_sum_ne0; pos.
   Qed.
 
   Theorem fresnel_reflect_kernel (w x : R) :
@@ -115,7 +119,7 @@ Section Fresnel.
     rewrite root_is. rewrite !cadd_real, !csub_real.
     generalize cos_pos_th ct_pos denom_s denom_p. intros Hc Hct Hds Hdp.
     assert (Hn : 0 < n2 / n1) by (apply Rdiv_lt_0_compat; lra).
-    rewrite !cdiv_real by (apply pos_sum_ne0; repeat apply Rmult_lt_0_compat; lra). rewrite cneg_real.
+    rewrite !cdiv_real by (apply pos_sum_ne0; pos). rewrite cneg_real.
     unfold r_s, r_p. fold c. fold ct.
     replace ((c - n2 / n1 * ct) / (c + n2 / n1 * ct)) with ((n1 * c - n2 * ct) / (n1 * c + n2 * ct))
       by (field; split; [lra|nra]).
@@ -142,9 +146,7 @@ Section Fresnel.
     generalize fresnel_energy_s fresnel_energy_p. unfold Refl, Trans. fold c. fold ct.
     generalize cos_pos_th ct_pos. intros Hc Hct Es Ep.
     assert (Hq : 0 < n2 * ct / (n1 * c)) by (apply Rdiv_lt_0_compat; nra).
-    split; split; try nra.
-    - generalize (Rle_0_sqr (t_s n1 n2 th)). unfold Rsqr. nra.
-    - generalize (Rle_0_sqr (t_p n1 n2 th)). unfold Rsqr. nra.
+    split; split; nra.
   Qed.
 
   (** *** Brewster: tan th = n2/n1  ->  r_p = 0  (and conversely when the indices differ) *)
@@ -178,9 +180,18 @@ Section Fresnel.
     { rewrite E. replace (n2 * n2 * (n1 * ct) * (n1 * ct)) with (n1 * n1 * (n2 * n2 * (ct * ct))) by ring.
       rewrite Hct2. field. lra. }
     assert (E3 : (n2 * n2 - n1 * n1) * (n2 * c * (n2 * c) - n1 * s * (n1 * s)) = 0) by nra.
-    apply Rmult_integral in E3. destruct E3 as [E3|E3]; [exfalso; nra|].
-    assert (E4 : n2 * c = n1 * s) by nra.
-    unfold tan. fold s. fold c. apply Rmult_eq_reg_r with (n1 * c); [|nra]. field_simplify; [|lra|lra]. lra.
+    apply Rmult_integral in E3. destruct E3 as [E3|E3].
+    { exfalso. apply Hne. assert (Hf : (n2 - n1) * (n2 + n1) = 0) by (replace ((n2 - n1) * (n2 + n1)) with (n2 * n2 - n1 * n1) by ring; exact E3).
+      apply Rmult_integral in Hf. destruct Hf; lra. }
+    assert (E4 : n2 * c = n1 * s).
+    { assert (Hf : (n2 * c - n1 * s) * (n2 * c + n1 * s) = 0)
+        by (replace ((n2 * c - n1 * s) * (n2 * c + n1 * s)) with (n2 * c * (n2 * c) - n1 * s * (n1 * s)) by ring; exact E3).
+      apply Rmult_integral in Hf. destruct Hf as [Hf|Hf]; [lra|].
+      assert (0 < n2 * c) by (apply Rmult_lt_0_compat; lra).
+      assert (0 <= n1 * s) by (apply Rmult_le_pos; lra). lra. }
+    unfold tan. fold s. fold c. apply Rmult_eq_reg_r with (n1 * c); [|apply Rgt_not_eq; apply Rmult_lt_0_compat; lra].
+    replace (s / c * (n1 * c)) with (n1 * s) by (field; lra).
+    replace (n2 / n1 * (n1 * c)) with (n2 * c) by (field; lra). lra.
   Qed.
 End Fresnel.
 
